@@ -35,6 +35,7 @@ RULES = {
     "C08-H4": "the scanner never examines bytes beyond the received data (cursor reads/advances guarded)",
     "C08-H5": "the buffer is NUL-terminated after the last change of the fill level before every parse",
     "C08-H7": "the text attached to -113 is cut before every trailing terminator byte (CR and LF alike), so it does not depend on whether CR and LF arrived in the same call",
+    "C08-H10": "the overrun refusal is decided from the pending unterminated data, not from the length of the chunk handed in (else the outcome depends on the partition)",
     "C08-H8": "the overrun refusal is exact: a chunk is refused only if position + len + 1 > buffer length (data that fits is never discarded)",
     "C08-H9": "definite-length block: once the '#', the digit count and all length digits have been read the block is either complete or incomplete (rest swallowed) - never rejected, whatever the announced length",
     "C08-H6": "a line is executed exactly when the scanner reports a NL termination",
@@ -222,26 +223,84 @@ def rule_h7(ck, prog, S):
     ck.analysed(parse, nl)
     st = K.site(parse, "undefined-header-text-trimmed", 0)
     a = C.call_args(push)
-    txt, ln = a[2].strip_all_casts().get("path"), a[3].strip_all_casts().get("path")
-    key = "%s[%s-1]" % (txt, ln)
+    from sa.linear import Lin
+
+    def lin(e):
+        """pointer/integer expression as a linear form over access paths (None when not linear)"""
+        e = e.strip_all_casts()
+        while e.k == "ParenExpr":
+            e = e.child(0).strip_all_casts()
+        cv = C.const_of(e)
+        if cv is not None:
+            return Lin.const(cv)
+        if e.get("path") and e.k in ("DeclRefExpr", "MemberExpr"):
+            return Lin.sym(e.get("path"))
+        if e.k == "BinaryOperator" and e.get("op") in ("+", "-"):
+            l, r_ = lin(e.child(0)), lin(e.child(1))
+            if l is None or r_ is None:
+                return None
+            return l + r_ if e["op"] == "+" else l - r_
+        return None
+    txtL, lnL = lin(a[2]), lin(a[3])
+    if txtL is None or lnL is None:
+        ck.undecided("C08-H7", st, K.loc(parse, push), "the -113 text (`%s`, `%s`) is not a linear pointer/length pair" % (a[2].src, a[3].src))
+        return
+    endL = txtL + lnL                                   # one past the last byte of the text
+    deps = set(endL.syms()) | set(txtL.syms()) | set(lnL.syms())
+    ln = a[3].strip_all_casts().get("path")
+    # pointers known to lie at or behind the unit start: locals whose only definition is the header token's pointer
+    det_ = list(parse.calls("scpiParser_detectProgramMessageUnit"))
+    unit_start = C.call_args(det_[0])[1].strip_all_casts().get("path") if det_ else None
+    behind = set()
+    for d in parse.nodes.values():
+        if d.k == "DeclStmt":
+            for dd in d.get("decls", []):
+                if "init" in dd and (parse.nodes[dd["init"]].strip_all_casts().get("path") or "").endswith("programHeader.ptr") and \
+                        not [n for n, t in C.stores(parse) if t.get("path") == dd["name"]]:
+                    behind.add(dd["name"])
+
+    def empty_when_zero(v):
+        """with the variable v == 0, is the text length provably <= 0 ?"""
+        z = lnL.subst({v: Lin.const(0)}) if v in lnL.syms() else None
+        if z is None:
+            return False
+        if z.is_const():
+            return z.k <= 0
+        if unit_start is not None and len(z.c) == 2 and z.k <= 0 and z.c.get(unit_start) == 1 and \
+                any(z.c.get(b) == -1 for b in behind):
+            return True                                  # unit start - header pointer <= 0
+        return False
+
+    def last_byte_reads(expr):
+        out = []
+        for x in expr.walk():
+            if x.k == "ArraySubscriptExpr":
+                bl, il = lin(x.child(0)), lin(x.child(1))
+                if bl is not None and il is not None and (bl + il + Lin.const(1)) == endL:
+                    out.append(x)
+        return out
     pg = S.pg(parse)
+
+    def is_last_byte_init(e):
+        e = e.strip_all_casts()
+        return e.k == "ArraySubscriptExpr" and bool(last_byte_reads(e))
 
     def transfer(state, e):
         if e.kind == "elem":
             n_ = e.node
             t = C.store_target(n_)
-            if t is not None and t.get("path") in (ln, txt):
+            if t is not None and t.get("path") in deps:
                 return frozenset()
             if n_.k == "DeclStmt":
-                if any(d["name"] in (ln, txt) for d in n_.get("decls", [])):
+                if any(d["name"] in deps for d in n_.get("decls", [])):
                     return frozenset()
                 for d in n_.get("decls", []):
-                    if "init" in d and parse.nodes[d["init"]].strip_all_casts().src.replace(" ", "") == key:
+                    if "init" in d and is_last_byte_init(parse.nodes[d["init"]]):
                         state = state | frozenset({("alias", d["name"])})     # a local copy of the last byte
                 return state
             if t is not None and t.k == "DeclRefExpr":
                 state = frozenset(x for x in state if x != ("alias", t.get("path")))
-                if n_.get("op") == "=" and n_.child(1).strip_all_casts().src.replace(" ", "") == key:
+                if n_.get("op") == "=" and is_last_byte_init(n_.child(1)):
                     state = state | frozenset({("alias", t.get("path"))})
             return state
         lab = e.label
@@ -252,16 +311,17 @@ def rule_h7(ck, prog, S):
             if isinstance(pol, tuple):
                 continue
             a_ = atom.strip_all_casts() if hasattr(atom, "strip_all_casts") else atom
-            if a_.k == "BinaryOperator" and a_.get("op") in (">", "!=") and a_.child(0).strip_all_casts().get("path") == ln \
-                    and C.const_of(a_.child(1)) == 0 and pol is False:
+            reads = last_byte_reads(a_)
+            if a_.k == "BinaryOperator" and a_.get("op") in (">", "!=") and a_.child(0).strip_all_casts().get("path") \
+                    and C.const_of(a_.child(1)) == 0 and pol is False and empty_when_zero(a_.child(0).strip_all_casts().get("path")):
                 add |= set(range(256))                      # the text is empty
-            elif a_.get("path") == ln and pol is False:
+            elif a_.get("path") and pol is False and empty_when_zero(a_.get("path")):
                 add |= set(range(256))
-            elif key in a_.src.replace(" ", "") or any(("alias", x.get("path")) in state for x in a_.walk() if x.k == "DeclRefExpr"):
+            elif reads or any(("alias", x.get("path")) in state for x in a_.walk() if x.k == "DeclRefExpr"):
                 names = {x.get("path") for x in a_.walk() if x.k == "DeclRefExpr" and ("alias", x.get("path")) in state}
                 for b in range(256):
                     try:
-                        env_ = {"$expr": {key: CS.byte_as_char(b)}}
+                        env_ = {"$expr": {r_.src.replace(" ", ""): CS.byte_as_char(b) for r_ in reads}}
                         env_.update({nm: CS.byte_as_char(b) for nm in names})
                         v = CS.ceval(a_, env_, prog)
                     except CS.CannotEvaluate:
@@ -272,13 +332,13 @@ def rule_h7(ck, prog, S):
     stt = pg.must(transfer)
     best = stt.get(pg.before(push))
     best = {x for x in best if not isinstance(x, tuple)} if best is not None else None
-    trims = [n for n, t in C.stores(parse) if t.get("path") == ln and (n.get("op") in ("--", "-="))]
+    trims = [n for n, t in C.stores(parse) if t.get("path") in deps and (n.get("op") in ("--", "-="))]
     if best is not None and best >= term:
         extra = best - term
         if extra:
             ck.violated("C08-H7", st, K.loc(parse, push), "the -113 text is also cut before bytes %s that are not terminators" % sorted(extra)[:8])
         else:
-            ck.holds("C08-H7", st, K.loc(parse, push), "at the push: %s == 0 or %s[%s-1] not in %s" % (ln, txt, ln, sorted(term)))
+            ck.holds("C08-H7", st, K.loc(parse, push), "at the push: the text (`%s`, `%s`) is empty or its last byte is not in %s" % (a[2].src, a[3].src, sorted(term)))
     elif trims or ln is None:
         ck.violated("C08-H7", st, K.loc(parse, push),
                     "at the -113 push the last byte of the attached text can still be a terminator byte (guaranteed stripped: %s of %s): "
@@ -374,6 +434,36 @@ def rule_h8(ck, prog, S):
         ck.holds("C08-H8", st, K.loc(f, atom), "accepted iff position + len + 1 <= length (`%s`)" % atom.src)
 
 
+def rule_h10(ck, prog, S):
+    """The refusal (-363, buffer reset) must depend on the pending unterminated data only.  A refusal decided from the
+    length of the chunk being handed in makes the outcome a function of the partition: a chunk that holds several complete
+    messages but is longer than the free space is thrown away whole, although fed in smaller pieces every message of it
+    is executed and nothing ever overruns."""
+    f = prog.fn("SCPI_Input")
+    if f is None:
+        return
+    over = prog.enumconst.get("SCPI_ERROR_INPUT_BUFFER_OVERRUN", -363)
+    pushes = [c for c in f.calls() if (c.get("callee") or "").startswith("SCPI_ErrorPush") and C.const_of(K.arg(c, 1)) == over]
+    if len(pushes) != 1 or len(f.params) < 3:
+        ck.anchor_lost("C08-H10", "the -363 push in SCPI_Input (%d found)" % len(pushes))
+        return
+    lenp = f.params[2]["name"]
+    st = K.site(f, "refusal-independent-of-chunk-length", 0)
+    facts = K.facts_at(S, f, pushes[0]) or []
+    dep = [a for a, pol in facts if not isinstance(pol, tuple) and
+           any(x.k == "DeclRefExpr" and x.get("path") == lenp for x in a.walk()) and
+           not (a.k == "BinaryOperator" and a.get("op") in ("==", "!=") and C.const_of(a.child(1)) == 0)]
+    if dep:
+        ck.violated("C08-H10", st, K.loc(f, pushes[0]),
+                    "the buffer is reset and -363 queued under `%s`, a condition on the length of the chunk handed in: a chunk "
+                    "that contains complete messages but exceeds the free space is discarded whole, the same bytes in smaller "
+                    "chunks are all executed" % dep[0].src,
+                    {"witness": "16-byte input buffer, stream \"A?\\nB?\\nA?\\nB?\\nA?\\nB?\\n\" (18 bytes, never more than 2 "
+                                "unterminated bytes pending): one call -> no handler, -363, FALSE; byte by byte -> six responses, no error"})
+    else:
+        ck.holds("C08-H10", st, K.loc(f, pushes[0]), "the refusal does not depend on the chunk length `%s`" % lenp)
+
+
 def run(ck, fb, tier):
     for cfg in fb.configs:
         ck.config = cfg
@@ -381,6 +471,7 @@ def run(ck, fb, tier):
         S = K.summaries(prog)
         model = LexModel(prog, S)
         rule_h1(ck, prog, S, model)
+        rule_h10(ck, prog, S)
         rule_h2_h6(ck, prog, S)
         # shared rules, recorded under this property's ids
         c09_h3(ck, prog)
